@@ -55,6 +55,11 @@ theorem at_most_one (s s' : LS) (e : LEv) (h : s.my ≤ 1) (hs : lstep true s e 
     · cases hs
     · split at hs <;> cases hs
       simp [keepOne_my]; omega
+  · -- exitTop
+    split at hs
+    · cases hs
+    · split at hs <;> cases hs
+      split <;> simp [keepOne_my] <;> omega
 
 /-- The invariant of the repaired loop: at most one token, at most one cheat, and a cheat is always backed by the token
 in hand or by a running child. -/
@@ -79,12 +84,61 @@ theorem no_panic (es : List LEv) (s : LS) (h : Backed s) : lrun true s es ≠ .p
 
 /-- What the process leaves with: never more cheats than tokens, at most one of each — the three exit states
 `(1,0)`, `(1,1)`, `(0,0)` that `do_force_return_tokens` turns into "token kept", "token destroyed, one IOU" and
-"one IOU" (the Tokens acceptor, Props/C08, checks that each leaves exactly one token to the job). -/
-theorem exit_states (s s' : LS) (h : Backed s) (hs : lstep true s .exit = .ok s') :
-    s'.cheats ≤ s'.my ∧ s'.my ≤ 1 ∧ s'.exited = true := by
-  obtain ⟨t, h1, h2, h3, h4, _⟩ := lstep_exit h (lstep_live hs)
-  rw [h1] at hs; cases hs
-  exact ⟨h2, h3, h4⟩
+"one IOU" (the Tokens acceptor, Props/C08, checks that each leaves exactly one token to the job).  The top of a redo
+tree under a foreign jobserver (`exitTop`) never leaves with `(0,0)`: only `(1,0)` and `(1,1)` remain. -/
+theorem exit_states (s s' : LS) (e : LEv) (he : e = .exit ∨ e = .exitTop) (h : Backed s)
+    (hs : lstep true s e = .ok s') :
+    s'.cheats ≤ s'.my ∧ s'.my ≤ 1 ∧ s'.exited = true ∧ (e = .exitTop → s'.my = 1) := by
+  rcases he with rfl | rfl
+  · obtain ⟨t, h1, h2, h3, h4, _⟩ := lstep_exit h (lstep_live hs)
+    rw [h1] at hs; cases hs
+    exact ⟨h2, h3, h4, fun h => by cases h⟩
+  · obtain ⟨t, h1, h2, h3, h4, _⟩ := lstep_exitTop h (lstep_live hs)
+    rw [h1] at hs; cases hs
+    exact ⟨h2, by omega, h4, fun _ => h3⟩
+
+/-- The top of a redo tree under a foreign (make-style) jobserver always leaves holding exactly one token — the one
+make expects back when the process it started ends — whichever event loop (pinned or repaired read) ran before. -/
+theorem exit_top_holds_a_token (fixRead : Bool) (s s' : LS) (h : Backed s)
+    (hs : lstep fixRead s .exitTop = .ok s') : s'.my = 1 := by
+  have hs' : lstep true s .exitTop = .ok s' := by
+    rw [← hs]; exact (lstepG_exitTop_indep fixRead true s).symm
+  exact (exit_states s s' .exitTop (.inr rfl) h hs').2.2.2 rfl
+
+/-- Neither assertion of `do_force_return_tokens` fails at the top of a redo tree. -/
+theorem exit_top_never_panics (fixRead : Bool) (s : LS) (h : Backed s) (hx : ¬ s.exited) :
+    lstep fixRead s .exitTop ≠ .panic := by
+  have hx' : s.exited = false := by cases hb : s.exited <;> simp_all
+  obtain ⟨t, h1, _⟩ := lstep_exitTop h hx'
+  intro hp
+  have : lstep true s .exitTop = .panic := by
+    rw [← hp]; exact (lstepG_exitTop_indep fixRead true s).symm
+  rw [h1] at this; cases this
+
+/-- The same for every other process (`.exit`). -/
+theorem exit_never_panics (fixRead : Bool) (s : LS) (h : Backed s) (hx : ¬ s.exited) :
+    lstep fixRead s .exit ≠ .panic := by
+  have hx' : s.exited = false := by cases hb : s.exited <;> simp_all
+  obtain ⟨t, h1, _⟩ := lstep_exit h hx'
+  intro hp
+  have : lstep true s .exit = .panic := by
+    rw [← hp]; exact (lstepG_exit_indep fixRead true s).symm
+  rw [h1] at this; cases this
+
+/-- Only the process that would leave with nothing is affected: when `.exit` leaves a token or a cheat, `.exitTop` is
+the same step. -/
+theorem exit_top_agrees_with_exit (fixRead : Bool) (s s' : LS) (hs : lstep fixRead s .exit = .ok s')
+    (hne : s'.my ≥ 1 ∨ s'.cheats ≥ 1) : lstep fixRead s .exitTop = .ok s' := by
+  simp only [lstep] at hs
+  simp only [lstep, lstepG_exitTop, hs]
+  rw [if_neg (by omega)]
+
+/-- ... and when `.exit` leaves with `(0,0)`, `.exitTop` differs exactly by the token taken back from the pipe. -/
+theorem exit_top_retakes (fixRead : Bool) (s s' : LS) (hs : lstep fixRead s .exit = .ok s')
+    (h0 : s'.my = 0 ∧ s'.cheats = 0) : lstep fixRead s .exitTop = .ok { s' with my := 1 } := by
+  simp only [lstep] at hs
+  simp only [lstep, lstepG_exitTop, hs]
+  rw [if_pos h0]
 
 /-- After the exit nothing else happens. -/
 theorem nothing_after_exit (s : LS) (e : LEv) (h : s.exited = true) : lstep true s e = .disabled :=
@@ -124,5 +178,24 @@ example : Backed { my := 1, cheats := 1, running := 0 } ∧ Backed { my := 0, ch
 /-- An error exit with children still running: their tokens are re-created first (the first one settles the cheat). -/
 example : lstep true { my := 0, cheats := 1, running := 2 } .exit
     = .ok { my := 1, cheats := 0, running := 2, exited := true } := by decide
+
+/-- Non-vacuity of the `exitTop` theorems: the history of `foreign_iou_fixed` (lock wait, cheat, child, the child's token
+settles the cheat) at the top of a redo tree ends with the token taken back; a process with its token in hand, or with
+a backed cheat, leaves exactly as under `.exit`; without `Backed` the assertion fails as for `.exit`. -/
+example : lrun true {} [.releaseMine, .cheat, .start, .childExit, .exitTop]
+      = .ok { my := 1, cheats := 0, running := 0, exited := true } ∧
+    lstep true { my := 0, cheats := 0, running := 0 } .exit
+      = .ok { my := 0, cheats := 0, running := 0, exited := true } ∧
+    lstep true { my := 0, cheats := 0, running := 0 } .exitTop
+      = .ok { my := 1, cheats := 0, running := 0, exited := true } ∧
+    lstep true {} .exitTop = lstep true {} .exit ∧
+    lstep true { my := 1, cheats := 1, running := 0 } .exitTop
+      = .ok { my := 1, cheats := 1, running := 0, exited := true } ∧
+    lstep true { my := 0, cheats := 1, running := 2 } .exitTop
+      = .ok { my := 1, cheats := 0, running := 2, exited := true } ∧
+    lstep true { my := 0, cheats := 1, running := 0 } .exitTop = .panic ∧
+    lstep false { my := 0, cheats := 0, running := 0, exited := true } .exitTop = .disabled := by decide
+
+example : Backed { my := 0, cheats := 0, running := 0 } := by simp [Backed]
 
 end C09
